@@ -39,10 +39,18 @@ def CmdLane.write (c : CmdLane) : CmdLane × Option Nat :=
     | none => (c, none)
   else (c, none)
 
+/-- an ad hoc command a handler sends to a lane of another agent: `SendCommand::new(address, value, overwrite_permitted)` -/
+structure AdHoc where
+  target : Nat
+  value : Nat
+  ow : Bool
+  deriving DecidableEq, Repr
+
 /-- the user's `on_command` -/
 structure Handler where
   pushes : Nat → List Nat
   selfCmd : Nat → Option Nat
+  sends : Nat → List AdHoc := fun _ => []   -- ad hoc commands `on_command(v)` sends, after its supplies
 
 /-- a command body as the lane's decoder sees it -/
 inductive Body
@@ -86,9 +94,23 @@ structure SupSide where
   requested : List Nat := []            -- sync requests received, in order
   deriving Repr
 
+/-- the agent task's side of ad hoc commands: `command_buffer` (every `send_ad_hoc_command` appends an encoded
+`CommandMessage::Addressed`), `cmd_writer: Option<CommandWriter>` (lent to the write in `cmd_send_fut`), the ad hoc
+byte channel to the runtime at record granularity. -/
+structure AdSide where
+  buf : List AdHoc := []         -- `command_buffer`
+  home : Bool := true            -- `cmd_writer.is_some()`
+  inflight : List AdHoc := []    -- `CommandWriter.buffer` of the write in `cmd_send_fut`
+  chan : List AdHoc := []        -- written to the channel, not yet read by the runtime
+  -- ghost
+  taken : List AdHoc := []       -- read by the runtime, in order
+  issued : List AdHoc := []      -- every command a handler sent, in order
+  deriving Repr
+
 structure St where
   cmd : CmdSide := {}
   sup : SupSide := {}
+  ad : AdSide := {}
   -- ghost
   received : List Body := []       -- every command body read from the command lane's input, in order
   trace : List Entry := []         -- handler invocations and supplied items, in execution order
@@ -99,6 +121,8 @@ inductive Ev
   | sync (l : LaneId) (r : Nat)       -- `ValueRequest { request: Sync(r) }`
   | writeDone (l : LaneId)            -- `WriteComplete` for the lane's writer
   | read (l : LaneId)                 -- the runtime reads one frame from the lane's channel (not a loop iteration)
+  | cmdSendDone                       -- `CommandSendComplete { result: Ok(writer) }`
+  | readCmd                           -- the runtime reads one record from the ad hoc channel (not a loop iteration)
   deriving Repr
 
 /-- `Supply` actions of a handler, one after the other: `lane.push(a)`, dirty, no trigger -/
@@ -107,6 +131,11 @@ def supplyAll (s : St) : List Nat → St
   | a :: rest =>
     supplyAll { s with sup := { s.sup with lane := s.sup.lane.push a, dirty := true },
                        trace := s.trace ++ [.push a] } rest
+
+/-- `SendCommand` actions of a handler, one after the other: `action_context.send_ad_hoc_command` appends to
+`command_buffer` -/
+def sendAll (s : St) (as : List AdHoc) : St :=
+  { s with ad := { s.ad with buf := s.ad.buf ++ as, issued := s.ad.issued ++ as } }
 
 /-- `DoCommand(v)`: `lane.command(v)`, `Modification::of(lane)` = dirty + trigger -/
 def setCommand (s : St) (v : Nat) : St :=
@@ -128,8 +157,8 @@ def doCommand (h : Handler) (s : St) (v : Nat) : St :=
         let t1 := setCommand s2 u
         match t1.cmd.lane.prev with
         | none => t1
-        | some u' => supplyAll { t1 with trace := t1.trace ++ [.inv u'] } (h.pushes u')
-    supplyAll s3 (h.pushes w)
+        | some u' => sendAll (supplyAll { t1 with trace := t1.trace ++ [.inv u'] } (h.pushes u')) (h.sends u')
+    sendAll (supplyAll s3 (h.pushes w)) (h.sends w)
 
 /-- the event proper (before `dirty_items.retain`) -/
 def handleEv (h : Handler) (s : St) : Ev → St
@@ -151,6 +180,31 @@ def handleEv (h : Handler) (s : St) : Ev → St
     | none => s
     | some f => { s with sup := { s.sup with out := { home := true, inflight := none, chan := s.sup.out.chan ++ [f] } } }
   | .read _ => s
+  | .cmdSendDone =>
+    -- `cmd_send_fut.set(None)`; if `!command_buffer.is_empty()` start the next write with the same writer,
+    -- else `cmd_writer = Some(writer)`
+    if s.ad.home then s
+    else if s.ad.buf.isEmpty then
+      { s with ad := { s.ad with home := true, inflight := [], chan := s.ad.chan ++ s.ad.inflight } }
+    else
+      { s with ad := { s.ad with inflight := s.ad.buf, buf := [], chan := s.ad.chan ++ s.ad.inflight } }
+  | .readCmd => s
+
+/-- `check_cmds` (after every handler that ran to completion): if `command_buffer` is not empty and the writer is at
+home, `CommandWriter::write` swaps the buffer out and the write becomes `cmd_send_fut` -/
+def checkCmds (s : St) : St :=
+  if !s.ad.buf.isEmpty && s.ad.home then
+    { s with ad := { s.ad with home := false, inflight := s.ad.buf, buf := [] } }
+  else s
+
+/-- is `check_cmds` called at the end of the event? (after a handler that completed: a decoded command, a
+`UnitHandler`, a sync handler — not after a rejected frame, not after a bare `WriteComplete` / `CommandSendComplete`) -/
+def Ev.runsHandler : Ev → Bool
+  | .command .cmd (.ok _) => true
+  | .command .cmd .bad => false
+  | .command .sup _ => true
+  | .sync _ _ => true
+  | _ => false
 
 /-- `dirty_items.retain` for the command lane -/
 def retainCmd (c : CmdSide) : CmdSide :=
@@ -186,9 +240,15 @@ def readLane (s : St) : LaneId → St
     | [] => s
     | f :: rest => { s with sup := { s.sup with out := { s.sup.out with chan := rest }, taken := s.sup.taken ++ [f] } }
 
+def readCmd (s : St) : St :=
+  match s.ad.chan with
+  | [] => s
+  | a :: rest => { s with ad := { s.ad with chan := rest, taken := s.ad.taken ++ [a] } }
+
 def step (h : Handler) (s : St) : Ev → St
   | .read l => readLane s l
-  | e => retain (handleEv h s e)
+  | .readCmd => readCmd s
+  | e => retain (if e.runsHandler then checkCmds (handleEv h s e) else handleEv h s e)
 
 def run (h : Handler) (s : St) (evs : List Ev) : St := evs.foldl (step h) s
 
@@ -213,6 +273,10 @@ def validCmds : List Body → List Nat
 def Handler.expand (h : Handler) (v : Nat) : List Nat :=
   v :: (match h.selfCmd v with | some u => [u] | none => [])
 
+/-- the ad hoc commands one received command makes the handlers send, in order -/
+def Handler.issuedBy (h : Handler) (v : Nat) : List AdHoc :=
+  (match h.selfCmd v with | some u => h.sends u | none => []) ++ h.sends v
+
 /-- the items one received command makes the handlers supply, in order -/
 def Handler.supplied (h : Handler) (v : Nat) : List Nat :=
   (match h.selfCmd v with | some u => h.pushes u | none => []) ++ h.pushes v
@@ -220,12 +284,19 @@ def Handler.supplied (h : Handler) (v : Nat) : List Nat :=
 /-! ### Line protocol (rig `sv-cl`: the real `AgentModel` with a command lane and a supply lane, the harness is the
 runtime). `new <stall>`: with `stall = 1` the lanes' output channels are smaller than any frame, so a write completes
 exactly when the harness reads the frame; with `0` they never fill up.
-`cmd <c|s> <body>` | `sync <c|s> <r>` | `read <c|s>`; output `h=<log since the last op> f=<frame read|->`. -/
+`cmd <c|s> <body>` | `sync <c|s> <r>` | `read <c|s>`; output `h=<log since the last op> f=<frame read|->`.
+`readcmd <n>`: the harness reads up to `n` records from the ad hoc command channel (capacity `new <stall> <cap>`, far
+smaller than a burst) with the real `CommandMessageDecoder`; output `h=- f=- a=<target>:<value>:<ow>,…`. Reading drains
+the channel, so every write in flight completes and the agent starts the next one: the records are the commands
+issued, in order, regardless of how they were batched. -/
 
 /-- the lifecycle of the rig: `on_command(v)` commands `v + 1` when `v % 7 = 5`, then supplies `v % 4` items -/
 def rigHandler : Handler where
   pushes := fun v => (List.range (v % 4)).map (fun i => v * 10 + i + 1)
   selfCmd := fun v => if v % 7 = 5 then some (v + 1) else none
+  -- `(v / 4) % 5` ad hoc commands, a burst of 60 when `v % 11 = 0`; targets `/t0 … /t2`, mixed overwrite flags
+  sends := fun v => (List.range (if v % 11 = 0 then 60 else (v / 4) % 5)).map
+    (fun i => { target := (v + i) % 3, value := v * 100 + i, ow := (v + i) % 2 = 0 })
 
 structure Sys where
   stall : Bool := false
@@ -243,6 +314,10 @@ def Entry.render : Entry → String
   | .inv v => s!"cmd:{v}"
   | .push a => s!"sup:{a}"
 
+def AdHoc.render (a : AdHoc) : String := s!"{a.target}:{a.value}:{boolBit a.ow}"
+
+def renderAds (as : List AdHoc) : String := if as.isEmpty then "-" else ",".intercalate (as.map AdHoc.render)
+
 def renderLog (es : List Entry) : String := if es.isEmpty then "-" else ",".intercalate (es.map Entry.render)
 
 /-- with channels that never fill, every write completes as soon as the loop comes round -/
@@ -258,7 +333,14 @@ def Sys.after (y : Sys) (s : St) : St :=
 
 def stepLine (y : Sys) (line : String) : Sys × String :=
   match words line with
-  | ["new", st] => ({ stall := st = "1", st := {} }, "ok")
+  | "new" :: st :: _ => ({ stall := st = "1", st := {} }, "ok")
+  | ["readcmd", n] => match n.toNat? with
+    | some n =>
+      let s0 := step rigHandler (step rigHandler y.st .cmdSendDone) .cmdSendDone
+      let got := s0.ad.chan.take n
+      let s := y.after ((List.replicate got.length Ev.readCmd).foldl (step rigHandler) s0)
+      ({ y with st := s }, s!"h=- f=- a={renderAds got}")
+    | none => (y, "bad-op")
   | ["cmd", l, b] => match parseLane l with
     | some l =>
       let s := y.after (step rigHandler y.st (.command l (parseBody b)))
@@ -302,6 +384,7 @@ structure Mon where
   -- can be ambiguous: `handled` is the most that can still be un-echoed, `handledMin` the least.
   handled : List Nat := []
   handledMin : List Nat := []
+  owedAds : List String := []   -- ad hoc commands issued by handlers and not yet read from the channel, oldest first
   deriving Repr
 
 def expectedLog (v : Nat) : List Entry :=
@@ -318,13 +401,24 @@ def dropThroughFirst (v : Nat) : List Nat → Option (List Nat)
 def dropThroughLast (v : Nat) (l : List Nat) : List Nat :=
   if l.contains v then (l.reverse.takeWhile (fun x => !(x == v))).reverse else []
 
+/-- records read from the ad hoc channel must be the oldest owed commands, in order -/
+def Mon.seeAds (m : Mon) : List String → Mon × Option String
+  | [] => (m, none)
+  | x :: rest =>
+    match m.owedAds with
+    | o :: os =>
+      if o = x then Mon.seeAds { m with owedAds := os } rest
+      else if os.contains x then (m, some "agent-command-dropped-or-reordered")
+      else (m, some "agent-command-duplicated-or-invented")
+    | [] => (m, some "agent-command-duplicated-or-invented")
+
 def Mon.step (m : Mon) (line : String) (out : String) : Mon × Option String :=
   match words out with
   | [h, f] =>
     let hv := (h.drop 2).toString
     let fv := (f.drop 2).toString
     match words line with
-    | ["new", _] => ({}, none)
+    | "new" :: _ => ({}, none)
     | ["cmd", l, b] =>
       if fv ≠ "-" then (m, some "unparsable") else
       match l, parseBody b with
@@ -332,7 +426,8 @@ def Mon.step (m : Mon) (line : String) (out : String) : Mon × Option String :=
         let e := expectedLog v
         if hv = renderLog e then
           ({ m with owedItems := m.owedItems ++ pushedItems e, handled := m.handled ++ invoked e,
-                    handledMin := m.handledMin ++ invoked e }, none)
+                    handledMin := m.handledMin ++ invoked e,
+                    owedAds := m.owedAds ++ (rigHandler.issuedBy v).map AdHoc.render }, none)
         else if hv = "-" then (m, some "command-handler-not-invoked")
         else (m, some "command-handler-invoked-wrongly")
       | _, _ => if hv = "-" then (m, none) else (m, some "command-handler-invoked-without-command")
@@ -369,9 +464,23 @@ def Mon.step (m : Mon) (line : String) (out : String) : Mon × Option String :=
           else (m, some "unparsable")
         | none => (m, some "unparsable")
     | _ => (m, some "unparsable")
+  | [h, f, a] =>
+    match words line with
+    | ["readcmd", n] =>
+      if h ≠ "h=-" || f ≠ "f=-" then (m, some "unparsable") else
+      let av := (a.drop 2).toString
+      let got := if av = "-" then [] else av.splitOn ","
+      let r := m.seeAds got
+      match r.2 with
+      | some e => (r.1, some e)
+      | none =>
+        -- the agent has settled and the channel has been drained as far as asked: anything still owed must be there
+        if got.length < n.toNat?.getD 0 && !r.1.owedAds.isEmpty then (r.1, some "agent-command-not-forwarded")
+        else (r.1, none)
+    | _ => (m, some "unparsable")
   | _ =>
     match words line with
-    | ["new", _] => ({}, none)
+    | "new" :: _ => ({}, none)
     | _ => (m, some "unparsable")
 
 end SwimVerif.CL
